@@ -241,7 +241,7 @@ def make_zhit_harness(admittance: bool):
 
 
 # --------------------------------------------------------------------------- circuit fitting
-def make_fit_harness(cdc: str, with_expr: bool, methods=("leastsq",)):
+def make_fit_harness(cdc: str, with_expr: bool, methods=("leastsq",), probe_last: bool = False):
     def harness(eng):
         import lmfit
         import pyimpspec.analysis.fitting as fit
@@ -270,11 +270,12 @@ def make_fit_harness(cdc: str, with_expr: bool, methods=("leastsq",)):
         if with_expr and len(names) >= 2:
             exprs = {names[1]: "2 * %s" % names[0]}
 
-        begun = []
+        begun, handed = [], []
 
         def minimize(fn, params, method=None, args=(), max_nfev=None, **kw):
             # lmfit's contract: varied parameters end inside [min, max], fixed ones keep their value, expr parameters follow their expression
             begun.append({nm: p.value for nm, p in params.items() if p.expr is None})
+            handed.append({nm: bool(p.vary) for nm, p in params.items() if p.expr is None})
             for nm, p in params.items():
                 if p.expr is not None:
                     continue
@@ -285,11 +286,29 @@ def make_fit_harness(cdc: str, with_expr: bool, methods=("leastsq",)):
                     if p.max is not None and not (isinstance(p.max, float) and p.max == float("inf")):
                         eng.assume(w <= p.max)
                     p.value = w
-            for nm, p in params.items():
-                if p.expr is not None:
-                    p.value = eval(p.expr, {}, {k: q.value for k, q in params.items()})
-                    p.vary = False
-            fn(params, *args)          # the residual is evaluated at the returned point
+            def follow():
+                for nm, p in params.items():
+                    if p.expr is not None:
+                        p.value = eval(p.expr, {}, {k: q.value for k, q in params.items()})
+                        p.vary = False
+            follow()
+            fn(params, *args)          # the residual is evaluated at the returned point ...
+            if probe_last:
+                # ... but an optimiser need not *end* there (scalar minimisers probe displaced points for the Hessian afterwards):
+                # the last evaluation happens somewhere else inside the limits, then the result is reported
+                final = {nm: p.value for nm, p in params.items()}
+                for nm, p in params.items():
+                    if p.expr is None and p.vary:
+                        q = eng.real(("probe." if len(begun) == 1 else "probe%d." % len(begun)) + nm)
+                        if p.min is not None and not (isinstance(p.min, float) and p.min == float("-inf")):
+                            eng.assume(q >= p.min)
+                        if p.max is not None and not (isinstance(p.max, float) and p.max == float("inf")):
+                            eng.assume(q <= p.max)
+                        p.value = q
+                follow()
+                fn(params, *args)
+                for nm, p in params.items():
+                    p.value = final[nm]
             f = FakeFit(params)
             f.ndata, f.chisqr = 2 * len(args[1]), 1.0
             return f
@@ -306,6 +325,13 @@ def make_fit_harness(cdc: str, with_expr: bool, methods=("leastsq",)):
         if not ok:
             return
         eng.check(len(begun) == len(methods), "fit:one fit per method/weight combination")
+        # the optimiser is handed the free parameters of the circuit passed in as varying and the fixed ones as constant
+        for k, (e, m) in enumerate(idents.items()):
+            for key in e.get_values():
+                for h in handed:
+                    if m[key] in h:
+                        eng.check(h[m[key]] == (not start[k]["fixed"][key]), "fit:exactly the free parameters are varied", lambda: "%s: vary=%r, fixed in the input=%r" % (
+                            m[key], h[m[key]], start[k]["fixed"][key]))
         for later in begun[1:]:
             for nm, v in later.items():
                 eng.check(same(v, begun[0][nm]), "fit:every method/weight combination starts from the values of the circuit passed in", lambda: nm)
@@ -375,6 +401,12 @@ def obligations(tier: str):
                                                   fit._extract_parameters],
                               stubs=["lmfit.minimize replaced by its contract: varied parameters end anywhere inside [min, max], fixed ones keep their value, "
                                      "expr parameters follow their expression; lmfit.Parameters is a name->parameter mapping"],
+                              expect_reach=["fit"], mode="fresh", max_paths=1000000))
+    for cdc in (("RC",) if tier == "quick" else ("RC", "R(RC)")):
+        obs.append(Obligation("fit.%s.probe" % cdc, make_fit_harness(cdc, False, ("leastsq",), probe_last=True),
+                              bounds="fit_circuit(%s): as fit.*.plain, and the optimiser's last residual evaluation happens at a symbolic point other than the one it reports" % cdc,
+                              functions=common + [fit.fit_circuit, fit._fit_process, fit._to_lmfit, fit._from_lmfit, fit._residual, fit._convert_intermediate_result],
+                              stubs=["lmfit.minimize by contract; it evaluates the residual at a second symbolic point inside the limits after the point it reports"],
                               expect_reach=["fit"], mode="fresh", max_paths=1000000))
     for cdc, ms in ((("R", ("leastsq", "nelder")),) if tier == "quick" else (("R", ("leastsq", "nelder", "powell")), ("RC", ("leastsq", "nelder")))):
         obs.append(Obligation("fit.%s.multi" % cdc, make_fit_harness(cdc, False, ms),
